@@ -941,7 +941,8 @@ func wholeRules(r *vkit.R, a *admitter) {
 		r.Count("policy_probe_cases", nProbes)
 		r.DistinctBatch(hs)
 		idempotence(r, a, st, class)
-		if i < 2 {
+		if i < 2 && len(uc.Spec.DispatchPolicies) > 0 && len(st.Spec.DispatchPolicies) > 0 && len(uc.Spec.DispatchPolicies[0].Rules) > 0 && len(st.Spec.DispatchPolicies[0].Rules) > 0 {
+			// (the first objects of a run may have a policy without rules: nothing to sample then)
 			r.Sample(map[string]interface{}{"kind": "whole-rule", "operation": class, "submitted": uc.Spec.DispatchPolicies[0].Rules[0], "stored": st.Spec.DispatchPolicies[0].Rules[0], "probe": genProbe(g, pl)})
 		}
 	})
